@@ -258,8 +258,8 @@ def run(ctx):
     dtasks = []
     for _ in range(10 if quick else 120):
         t = C06.make_task(rng, W=rng.choice([2, 2, 3, 4]))
-        npar = len(t["draw"]["groups"][0]["shapes"])
-        t["masks"] = [[[True] * npar] if rng.random() < 0.8 else [[False] * npar] for _ in range(5)]     # no rank is ever starved (D5a)
+        # per step and parameter group: all gradients present or all absent, so no rank is ever starved (D5a)
+        t["masks"] = [[[rng.random() < 0.8] * len(g["shapes"]) for g in t["draw"]["groups"]] for _ in range(5)]
         t["k"] = rng.randrange(0, 6)
         t["comm_params"] = rng.random() < 0.3
         dtasks.append(t)
